@@ -214,6 +214,34 @@ PROPS['C12'] = dict(
     assumptions=['Inv_ans / Inv_renc on symbolic pre-states'],
 )
 
+PROPS['C16'] = dict(
+    obligations=[
+        K('c16_stack_lifo', 'bits', 'stack_lifo_script', tq=900),
+        K('c16_stack_export_import', 'bits', 'stack_export_import', tq=900),
+        K('c16_stack_reexport', 'bits', 'stack_reexport', tq=900),
+        K('c16_queue_fifo', 'bits', 'queue_fifo', tq=900),
+        K('c16_expgolomb_u8', 'bits', 'expgolomb_u8', tq=900),
+        K('c16_expgolomb_u16', 'bits', 'expgolomb_u16', tiers=('thorough',), tt=3600),
+        K('c16_expgolomb_coders', 'bits', 'expgolomb_through_coders', tiers=('thorough',), tt=7200),
+    ],
+    bounds='Word=u8 over the real Vec<u8>: symbolic scripts of 8 write/read operations; every bit string of <= 17 bits (all fill levels of the last word: 0,7,8,9,...,17) for '
+           'export/re-import and FIFO order; Exp-Golomb over ALL values of u8 and u16 (incl. MAX), truncated codewords at every cut point',
+    outside='Word types other than u8 (the coders are generic and only shift/mask within one word); bit strings longer than 17 bits; Exp-Golomb for u32/u64 (same code, loop bounds 65/129)',
+    assumptions=[],
+)
+
+PROPS['C15'] = dict(
+    obligations=[
+        K('c15_huffman_n1', 'bits', 'huffman_n1', tq=600), K('c15_huffman_n2', 'bits', 'huffman_n2', tq=600),
+        K('c15_huffman_n3', 'bits', 'huffman_n3', tq=900), K('c15_huffman_n4', 'bits', 'huffman_n4', tiers=('thorough',), tt=7200),
+        K('c15_huffman_float_n3', 'bits', 'huffman_float_n3', tq=900),
+    ],
+    bounds='all weight vectors of n <= 3 (quick) / n <= 4 (thorough) u8 weights widened to u32 (no overflow), and all f32 triples (NaN => error; zeros, infinities, repeated weights); '
+           'optimality against every complete code-length vector in every assignment; tie-breaking pinned by codeword lengths against a heap-free reference merge',
+    outside='n > 4 symbols (heap sift loops grow); weights whose sum overflows the weight type',
+    assumptions=['float weights are non-negative or NaN (documented precondition)'],
+)
+
 PROPS['C17'] = dict(
     obligations=[
         K('c17_cursor_script', 'c17', 'cursor_script_mut_slice', tq=900),
